@@ -22,8 +22,9 @@ pub struct NodeView {
     /// a DHCP client socket runs but no application applies its leases to the interface (adversary scenario):
     /// the client's own messages (68 -> 67) are then sourced from an address only the socket knows
     pub dhcp_unmanaged: bool,
-    /// SLAAC is enabled: addresses the stack forms itself from advertised 2001:db8::/32 prefixes are its own
-    pub slaac_prefixes: bool,
+    /// SLAAC is enabled: addresses the stack forms itself from advertised /64 prefixes and this interface
+    /// identifier are its own
+    pub slaac_iid: Option<[u8; 8]>,
 }
 
 pub struct Tapped {
@@ -213,8 +214,10 @@ fn check_source_rule(view: &NodeView, ip: &Ip, pkt: &Packet) -> Result<(), Viola
         }
         return Ok(());
     }
-    if view.slaac_prefixes && !src.is_v4() && src.bytes()[..4] == [0x20, 0x01, 0x0d, 0xb8] {
-        return Ok(());
+    if let Some(iid) = view.slaac_iid {
+        if !src.is_v4() && src.bytes()[8..] == iid {
+            return Ok(());
+        }
     }
     if !view.addrs.iter().any(|(a, _)| a == src) {
         // raw sockets supply their own header; exempt
